@@ -388,7 +388,7 @@ impl<'a> MG<'a> {
             5 => self.s(SK::Break),
             6 => self.s(SK::Continue),
             7 => {
-                let e = self.expr(2);
+                let e = if self.cfg.syn_safe { self.ident() } else { self.expr(2) };
                 self.s(SK::ExprStmt(e))
             }
             _ => {
@@ -568,7 +568,21 @@ impl<'a> MG<'a> {
                     })
                 }
                 24 => {
-                    let e = self.expr(self.cfg.expr_depth);
+                    let mut e = self.expr(self.cfg.expr_depth);
+                    if self.cfg.syn_safe {
+                        // an expression statement starting with `-` is swallowed by a preceding
+                        // assignment statement (recorded C16 finding)
+                        fn leftmost(e: &E) -> &E {
+                            match &e.k {
+                                EK::Binary(_, l, _) => leftmost(l),
+                                EK::Index(b, _) => leftmost(b),
+                                _ => e,
+                            }
+                        }
+                        if matches!(leftmost(&e).k, EK::Unary(..)) {
+                            e = self.ident();
+                        }
+                    }
                     self.s(SK::ExprStmt(e))
                 }
                 25 => {
